@@ -62,6 +62,8 @@ def run(check: Check):
   check.rule('R-ORDER', 'save precedes every delete and the retention list is computed after the save; '
              'the sampler is re-seated with the round the loop starts at; the resumed state is the loaded one; '
              'the checkpoint stores the state produced by this round under this round number')
+  check.rule('R-RESUME', 'load_state returns the unpickled object unconverted; every file written by the experiment loop, the checkpoint '
+             'writer and the serializer is opened in a truncating mode (no append), so that a repeated run rewrites it')
   check.rule('R-DEFASSIGN', 'names read after a possibly empty loop are definitely assigned')
   check.rule('R-PAIR', 'the loader parses the round number from the same path it loads, and picks the last '
              'element of the sorted list')
@@ -70,6 +72,14 @@ def run(check: Check):
   check.assume('tf.io.gfile.rename(overwrite=True) / os.replace publish atomically')
   _checkpoint(check, aa)
   _experiment(check)
+  # a restored state is the saved object itself (shared rule with C16)
+  from fjsa.props import c16
+  c16._pickle(check, 'R-RESUME')
+  _rewrite_modes(check)
+  # seating the sampler at the resumed round reproduces the uninterrupted run's cohorts (shared rules with C13)
+  from fjsa.props import c13
+  check.rule('R-SEED', 'round-indexed sampling depends only on (seed, round): see C13')
+  c13.sampler_rules(check)
 
 
 def _checkpoint(check: Check, aa: AtomicAnalysis):
@@ -301,6 +311,32 @@ def _retention_ok(ff: FuncFlow, e: ast.AST, save) -> Optional[bool]:
       return None
     return sl.lower is None
   return None
+
+
+def _rewrite_modes(check: Check):
+  """Everything a run writes is rewritten from scratch when the run is repeated: no append mode anywhere in the experiment loop,
+  the checkpoint writer or the state serializer."""
+  repo = check.repo
+  n = 0
+  for modname in ('fedjax.training.federated_experiment', 'fedjax.training.checkpoint', 'fedjax.core.serialization'):
+    m = repo.module(modname)
+    for fi in m.functions():
+      ff = FuncFlow.of(repo, fi)
+      for _, c in ff.calls():
+        path = ext_path(ff, c) if 'ext_path' in globals() else ff.ext(c.func)
+        is_open = (path or '').endswith(('gfile.GFile', 'builtins.open', 'io.open')) or txt(c.func) in ('open', 'tf.io.gfile.GFile')
+        if not is_open:
+          continue
+        mode = c.args[1] if len(c.args) >= 2 else next((k.value for k in c.keywords if k.arg == 'mode'), None)
+        mv = mode.value if isinstance(mode, ast.Constant) and isinstance(mode.value, str) else ('r' if mode is None else None)
+        n += 1
+        if mv is None:
+          check.inconclusive('R-RESUME.mode', fi, txt(c)[:70], 'file mode is not a literal')
+          continue
+        check.ob('R-RESUME.mode', fi, txt(c)[:70], 'a' not in mv and '+' not in mv,
+                 f'mode {mv!r}: a re-run after a crash must produce the same file as an uninterrupted run; appending keeps what the '
+                 'interrupted run already wrote', node=c)
+  check.floor('R-RESUME.mode', 'file opens in the experiment / checkpoint / serialization modules', n, 3)
 
 
 def _experiment(check: Check):
